@@ -438,11 +438,11 @@ func (s *socket) clearTransport() {
 // Possible reasons: `ping timeout`, `client error`, `parse error`,
 // `transport error`, `server close`, `transport close`
 func (s *socket) OnClose(reason string, description ...error) {
-	if s.ReadyState() != "closed" {
+	// test and set in one step: close causes race from reader, writer, timer and application goroutines
+	if previous, _ := s.readyState.Swap("closed").(string); previous != "closed" {
+		socket_log.Debug("readyState updated from %s to %s", previous, "closed")
 		vhook.Yield("socket.OnClose.checked")
 		description = append(description, nil)
-
-		s.SetReadyState("closed")
 
 		// clear timers
 		utils.ClearTimeout(s.pingIntervalTimer.Load())
